@@ -74,6 +74,8 @@ pub struct Harness {
     pub peak_growth: u64,
     pub leak_checks: u32,
     pub notes: Vec<String>,
+    /// set while code shared with another property's check runs, whose probe numbering differs
+    pub mute_probes: bool,
     trace: bool,
 }
 
@@ -128,6 +130,7 @@ impl Harness {
             peak_growth: 0,
             leak_checks: 0,
             notes: vec![],
+            mute_probes: false,
             trace,
         }
     }
@@ -137,7 +140,9 @@ impl Harness {
     }
 
     pub fn probe(&mut self, idx: usize) {
-        self.probes[idx] += 1;
+        if !self.mute_probes {
+            self.probes[idx] += 1;
+        }
     }
 
     pub fn state(&mut self, parts: &[u64]) {
